@@ -289,8 +289,8 @@ def t1_twin(case, sess: Session):
 def gen_t1_case(rng):
     from vlib.harness import gen_graph, gen_text
 
-    ng = rng.randint(1, 6)
-    graphs = {f"g{i}": gen_graph(rng, nmax=8, emax=12) for i in range(ng)}
+    ng = rng.choice([1, 2, 3, 4, 5, 6, 11, 13, 23])
+    graphs = {f"g{i}": gen_graph(rng, nmax=8 if ng <= 6 else 4, emax=12 if ng <= 6 else 4) for i in range(ng)}
     labs = [n[1] for g in graphs.values() for n in g["nodes"] if n[1]]
     text = gen_text(rng) + " " + " ".join(rng.sample(labs, min(len(labs), 2)))
     t1 = {"cache": {"enabled": rng.random() < 0.4}}
